@@ -338,8 +338,8 @@ def minimise_and_gate(prop, harness, exe, tier, fail, tmpdir):
         "shrink_runs": shrink_runs + sched_runs,
         "strategy": r.get("strategy"), "how": "./check %s --replay <this file>" % prop,
     }
-    outdir = os.path.join(VERIF, "findings", prop)
-    os.makedirs(outdir, exist_ok=True)
+    from .common import findings_dir
+    outdir = findings_dir(prop)
     path = os.path.join(outdir, "%s_%d.replay.json" % (harness, seed))
     with open(path, "w") as f:
         json.dump(replay, f, indent=1)
